@@ -11,7 +11,7 @@ use quantity::*;
 use serde_json::json;
 use std::sync::Arc;
 
-pub const TOL: f64 = 1e-10;
+pub const TOL: f64 = 3e-10;
 pub const TOL_SCALE: f64 = 1e-9;
 
 fn rel(terms: &[f64]) -> f64 {
@@ -101,7 +101,7 @@ fn check_state(m: &mut Monitor, case: u64, mc: &ModelCase, ss: &StateSpec, seed:
     // packing fraction; second composition derivatives of chain functionals carry
     // cancelling (m-1)/N_k terms for dilute components
     let xmin = ss.x.iter().cloned().fold(1.0, f64::min);
-    let lowdens = (1e-1 / ss.eta_frac).max(1.0);
+    let lowdens = (1e-1 / ss.eta_frac).max(1.0) * if mc.family.ends_with("functional") { 10.0 } else { 1.0 };
     let dilute = (1e-2 / xmin).max(1.0);
     let chk = |m: &mut Monitor, name: &str, terms: Vec<f64>, tol: f64| {
         let sig = format!("{fam}|{name}");
